@@ -9,6 +9,8 @@ for d in seeded/c*/; do
     # c06a makes thousands of cases run into the file-read budget (200 000 reads each): the first 4 000 cases of the
     # same batch (case k is a function of the seed and k alone) make the point in a tenth of the time
     extra=""; [ "$id" = c06a ] && extra="--runs 4000"
+    # (c06m: every runaway case needs 50 000 000 lookup steps to be called, half an hour for the full batch)
+    [ "$id" = c06m ] && extra="--runs 4000"
     tools/try_seeded.sh "$id" "$P" $extra 2>&1 | grep "^seeded="
   else
     echo "seeded=$id PATCH-DOES-NOT-APPLY (rebase it: git apply --3way in a scratch worktree)"
